@@ -469,7 +469,57 @@ func c04Scenarios(tier mc.Tier) []mc.Scenario {
 			}
 		}
 	}
+	out = append(out, mc.Scenario{Name: "C04-answer-delivered-after-its-next-update", Bound: -1, Expect: 2, Body: c04LateAnswer,
+		Params: map[string]string{"responder": "slow by up to one second", "entries": "validate, checkstatus"}})
 	return out
+}
+
+// c04LateAnswer: an authentic Good answer that is still current when the check starts and has passed its nextUpdate by the time it
+// is delivered (the responder is slow by up to a second: nextUpdate has whole-second resolution). What counts is the moment of use.
+// The handler itself waits for the real clock to pass nextUpdate, so nothing here depends on how fast the machine is.
+func c04LateAnswer(c *mc.Ctx) {
+	w := newOCSPWorldOnce()
+	entry := []string{"validate", "checkstatus"}[c.ChooseFree("entry", 2)]
+	var nextUpdate time.Time
+	tr := &netsim.Transport{Handler: func(r *netsim.Request, raw *http.Request) netsim.Answer {
+		nextUpdate = time.Now().Truncate(time.Second).Add(time.Second)
+		body := pki.ForgeOCSP(pki.OCSPSpec{Issuer: w.root, Signer: w.root.Key, Responder: w.root, Singles: []pki.OCSPSingle{{Serial: w.leaf.X.SerialNumber, Status: pki.OCSPGood, ThisUpdate: nextUpdate.Add(-time.Hour), NextUpdate: nextUpdate}}})
+		for !time.Now().After(nextUpdate.Add(20 * time.Millisecond)) {
+			time.Sleep(10 * time.Millisecond)
+		}
+		return okResp(body)
+	}}
+	chain := []*x509.Certificate{w.leaf.X, w.root.X}
+	var res []*result.CertRevocationResult
+	var err error
+	if entry == "validate" {
+		v, e := revocation.NewWithOptions(revocation.Options{OCSPHTTPClient: tr.Client(), CertChainPurpose: purpose.CodeSigning})
+		if e != nil {
+			panic(mc.HarnessError{Msg: e.Error()})
+		}
+		res, err = v.ValidateContext(context.Background(), revocation.ValidateContextOptions{CertChain: chain})
+	} else {
+		res, err = revocsp.CheckStatus(revocsp.Options{CertChain: chain, HTTPClient: tr.Client()})
+	}
+	if err != nil || len(res) != 2 || res[0] == nil {
+		c.Fail("C04 harness-level: valid chain not processed", "err=%v results=%v", err, res)
+		return
+	}
+	c.State("late answer")
+	c.Outcome("late-answer:" + res[0].Result.String())
+	if res[0].Result == result.ResultOK || res[0].Result == result.ResultNonRevokable {
+		c.Fail("C04 OK on an answer that had passed its nextUpdate when it was delivered", "entry %s: nextUpdate %v, verdict %s", entry, nextUpdate, res[0].Result)
+	}
+}
+
+var (
+	c04LateOnce sync.Once
+	c04LateW    *ocspWorld
+)
+
+func newOCSPWorldOnce() *ocspWorld {
+	c04LateOnce.Do(func() { c04LateW = newOCSPWorld("p256-a", "short", []string{"http://r0.ocsp.test/ocsp"}, nil) })
+	return c04LateW
 }
 
 func (s *c04Scenario) body(c *mc.Ctx) {
